@@ -296,6 +296,12 @@ func (c *Variant) SetAsObject(value any) {
 		v, _ := c.value.(*Variant)
 		c.typ = v.typ
 		c.value = v.value
+		// Keep an own copy of the list, as for a plain array
+		if a1, ok := v.value.([]*Variant); ok {
+			a2 := make([]*Variant, len(a1))
+			copy(a2, a1)
+			c.value = a2
+		}
 	default:
 		c.typ = Object
 	}
@@ -424,6 +430,24 @@ func (c *Variant) String() string {
 func (c *Variant) Equals(obj *Variant) bool {
 	if obj == nil {
 		return false
+	}
+	// Arrays are compared element by element (slices are not comparable)
+	if c.typ == Array && obj.typ == Array {
+		a1, _ := c.value.([]*Variant)
+		a2, _ := obj.value.([]*Variant)
+		if len(a1) != len(a2) {
+			return false
+		}
+		for i := range a1 {
+			if a1[i] == nil || a2[i] == nil {
+				if a1[i] != a2[i] {
+					return false
+				}
+			} else if !a1[i].Equals(a2[i]) {
+				return false
+			}
+		}
+		return true
 	}
 	value1 := c.value
 	value2 := obj.value
